@@ -1,22 +1,48 @@
 #!/bin/bash
 # coverage-guided campaign: fuzz/run.sh <target> <seconds> [property]
-# exit 0 = no failing input found, 1 = the target reported a violation (replay saved), 2 = infrastructure trouble
+# exit 0 = no failing input found, 1 = the target reported a violation (replay saved), 2 = infrastructure trouble.
+# On success the campaign is added to evidence/<property>.json under coverage.fuzz_campaigns.
 set -u
 T=$1; SECS=$2; PROP=${3:-C02}
 cd "$(dirname "$0")/.." || exit 2
 export CARGO_NET_OFFLINE=true VERIF_ROOT=$PWD
 ./check --build >/dev/null 2>&1 || { echo "harness build failed"; exit 2; }
-cargo +nightly fuzz build --fuzz-dir fuzz "$T" >fuzz/build-$T.log 2>&1 || { echo "fuzz build failed, see fuzz/build-$T.log"; exit 2; }
-rm -rf fuzz/corpus-run/$T; mkdir -p fuzz/corpus-run/$T fuzz/artifacts/$T
+mkdir -p fuzz/logs
+cargo +nightly fuzz build --fuzz-dir fuzz "$T" >fuzz/logs/build-$T.log 2>&1 || { echo "fuzz build failed, see fuzz/logs/build-$T.log"; exit 2; }
+rm -rf fuzz/corpus-run/$T fuzz/artifacts/$T; mkdir -p fuzz/corpus-run/$T fuzz/artifacts/$T
 harness/target/release/verif-check --emit-corpus fuzz/corpus-run >/dev/null 2>&1
 SEED=${VERIF_SEED:-1}; [ "$SEED" = 0 ] && SEED=1
-out=$(cargo +nightly fuzz run --fuzz-dir fuzz "$T" fuzz/corpus-run/$T -- -max_total_time=$SECS -seed=$SEED -max_len=4096 -len_control=0 -timeout=20 -rss_limit_mb=4096 -artifact_prefix=fuzz/artifacts/$T/ -workers=${FUZZ_JOBS:-8} -jobs=${FUZZ_JOBS:-8} 2>&1)
+J=${FUZZ_JOBS:-8}
+rm -f fuzz-*.log
+out=$(cargo +nightly fuzz run --fuzz-dir fuzz "$T" fuzz/corpus-run/$T -- -max_total_time=$SECS -seed=$SEED -max_len=4096 -len_control=0 -timeout=20 -rss_limit_mb=4096 -print_final_stats=1 -artifact_prefix=fuzz/artifacts/$T/ -workers=$J -jobs=$J 2>&1)
 rc=$?
-echo "$out" | grep -E "VIOLATION|stat::number_of_executed_units|cov:" | tail -12
-mv fuzz-*.log fuzz/ 2>/dev/null
-if echo "$out" | grep -q "^VIOLATION"; then exit 1; fi
+execs=$(cat fuzz-*.log 2>/dev/null | grep "stat::number_of_executed_units" | awk '{s+=$2} END {print s+0}')
+cov=$(cat fuzz-*.log 2>/dev/null | grep -o "cov: [0-9]*" | awk '{if ($2>m) m=$2} END {print m+0}')
+corpus=$(ls fuzz/corpus-run/$T | wc -l)
+mkdir -p fuzz/logs/$T; mv fuzz-*.log fuzz/logs/$T/ 2>/dev/null
+echo "fuzz $T: $execs executions in ${SECS}s x $J jobs, coverage $cov edges, corpus $corpus files, status $rc"
+if echo "$out" | grep -q "^VIOLATION" || grep -qs "^VIOLATION" fuzz/logs/$T/*.log; then
+  (echo "$out"; cat fuzz/logs/$T/*.log) | grep -m1 "^VIOLATION"
+  exit 1
+fi
 if [ $rc -ne 0 ]; then
-  if ls fuzz/artifacts/$T/crash-* >/dev/null 2>&1; then echo "VIOLATION property=$PROP replay=$(ls fuzz/artifacts/$T/crash-* | head -1)"; exit 1; fi
+  if ls fuzz/artifacts/$T/crash-* >/dev/null 2>&1; then echo "VIOLATION property=$PROP replay=$(ls $PWD/fuzz/artifacts/$T/crash-* | head -1)"; exit 1; fi
   echo "fuzzer ended with status $rc without a crash artifact (timeout / oom / infrastructure): inconclusive"; exit 2
 fi
+python3 - "$PROP" "$T" "$SECS" "$J" "$execs" "$cov" "$corpus" "$SEED" <<'PY'
+import json, sys
+prop, target, secs, jobs, execs, cov, corpus, seed = sys.argv[1:9]
+path = f"evidence/{prop}.json"
+try:
+    e = json.load(open(path))
+except Exception:
+    sys.exit(0)
+c = e.setdefault("coverage", {})
+camps = [x for x in c.get("fuzz_campaigns", []) if x.get("target") != target]
+camps.append({"target": target, "engine": "libFuzzer (cargo fuzz, ASan, debug assertions)", "seconds": int(secs), "jobs": int(jobs), "executions": int(execs),
+              "coverage_edges": int(cov), "corpus_files_at_end": int(corpus), "seed": int(seed), "failing_inputs": 0,
+              "oracle": "the same judge as the generated checks (see fuzz/fuzz_targets)"})
+c["fuzz_campaigns"] = camps
+json.dump(e, open(path, "w"), indent=1)
+PY
 exit 0
